@@ -1,6 +1,8 @@
 package main
 
 import (
+	"go/token"
+
 	"golang.org/x/tools/go/ssa"
 )
 
@@ -231,6 +233,13 @@ func (e *e1Engine) helperValue(call *ssa.Call) ssa.Value {
 		if k, ok := helperPick[call]; ok && k < len(vals) {
 			return vals[k]
 		}
+		// one return of a merged variable: render it as that variable (an extracted block usually keeps
+		// the name the variable had in the function it was cut from)
+		if len(rets) == 1 {
+			if ph, isPhi := rets[0].Results[0].(*ssa.Phi); isPhi && ph.Comment != "" {
+				return ph
+			}
+		}
 		return nil
 	}
 	return v0
@@ -367,4 +376,114 @@ func (e *e1Engine) feasibleReturns(callee *ssa.Function, args []ssa.Value, lits 
 		}
 	})
 	return out, ok
+}
+
+// feasibleReturnInstrs: the return instructions of callee reachable under lits (branches the valuation
+// decides are followed on one side only; a phi condition is left undecided).
+func (e *e1Engine) feasibleReturnInstrs(callee *ssa.Function, args []ssa.Value, lits []Lit, matched []int) []*ssa.Return {
+	var out []*ssa.Return
+	inFrame(callee, args, func() {
+		throughDepth--
+		defer func() { throughDepth++ }()
+		seen := map[*ssa.BasicBlock]bool{callee.Blocks[0]: true}
+		q := []*ssa.BasicBlock{callee.Blocks[0]}
+		for len(q) > 0 {
+			b := q[0]
+			q = q[1:]
+			succs := b.Succs
+			if iff, isIf := b.Instrs[len(b.Instrs)-1].(*ssa.If); isIf && len(succs) == 2 {
+				c := iff.Cond
+				for {
+					c = stripConv(c)
+					if u, ok := c.(*ssa.UnOp); ok && u.Op == token.NOT {
+						c = u.X
+						continue
+					}
+					break
+				}
+				if _, isPhi := c.(*ssa.Phi); !isPhi {
+					if k, r := e.boolUnder(iff.Cond, lits, matched); k {
+						if r {
+							succs = succs[:1]
+						} else {
+							succs = succs[1:]
+						}
+					}
+				}
+			}
+			for _, s := range succs {
+				if !seen[s] {
+					seen[s] = true
+					q = append(q, s)
+				}
+			}
+		}
+		for _, b := range callee.Blocks {
+			if seen[b] {
+				if r, ok := b.Instrs[len(b.Instrs)-1].(*ssa.Return); ok {
+					out = append(out, r)
+				}
+			}
+		}
+	})
+	return out
+}
+
+// helperNil: v is the result (or the idx-th result) of a call to a new function; under lits, is it
+// certainly nil / certainly non-nil on every feasible return?
+func (e *e1Engine) helperNil(v ssa.Value, lits []Lit, matched []int) (known, nonNil bool) {
+	v = stripConv(v)
+	idx := 0
+	var call *ssa.Call
+	switch x := v.(type) {
+	case *ssa.Call:
+		call = x
+	case *ssa.Extract:
+		c, ok := x.Tuple.(*ssa.Call)
+		if !ok {
+			return false, false
+		}
+		call, idx = c, x.Index
+	default:
+		return false, false
+	}
+	callee, args := newCallee(call)
+	if callee == nil || throughDepth >= throughMax || idx >= callee.Signature.Results().Len() {
+		return false, false
+	}
+	rets := e.feasibleReturnInstrs(callee, args, lits, matched)
+	if len(rets) == 0 {
+		return false, false
+	}
+	first := true
+	res := false
+	ok := true
+	inFrame(callee, args, func() {
+		for _, r := range rets {
+			if idx >= len(r.Results) {
+				ok = false
+				return
+			}
+			rv := retOperand(r, idx)
+			var nn bool
+			if k, isK := rv.(*ssa.Const); isK && k.IsNil() {
+				nn = false
+			} else if e.valueNonNil(rv, r.Block(), lits, 0) {
+				nn = true
+			} else {
+				ok = false
+				return
+			}
+			if first {
+				res, first = nn, false
+			} else if nn != res {
+				ok = false
+				return
+			}
+		}
+	})
+	if !ok || first {
+		return false, false
+	}
+	return true, res
 }
